@@ -123,12 +123,14 @@ static void sec_meta(Ctx& c, uint64_t) {
   // KNOWN-defect regimes (same predicates and order as in the history runner): inside a regime every relation reports under the regime key
   // with the relation's own key in detail.monitor; errors of half the ellipsoid area on polygons with an edge between exactly opposite
   // meridians get their own suffix
-  bool extra_rheq = false, extra_preq = false;
+  bool extra_rheq = false, extra_preq = false, extra_rhtiny = false;
   auto report = [&](double err, const char* w, const J& d, bool extratie = false) {
     std::string kk = key(w);
     if ((M.ntie || extratie) && std::fabs(err - 0.5 * A0) <= 1e-6 * A0) kk += "/off-by-half-ellipsoid-area/edge-between-opposite-meridians";
-    if (env.be == B_RH_EXACT && env.f < 0 && (M.nrheq || extra_rheq)) c.viol("regime:C08/rhumb-exact/prolate-ellipsoid-edge-near-equator-same-side", cls, J(d).str("monitor", kk));
+    if (env.be == B_RH_EXACT && (M.nrhtiny || extra_rhtiny)) c.viol("regime:C08/rhumb-exact/edge-with-nonzero-latitude-below-1e-290deg", cls, J(d).str("monitor", kk));
+    else if (env.be == B_RH_EXACT && env.f < 0 && (M.nrheq || extra_rheq)) c.viol("regime:C08/rhumb-exact/prolate-ellipsoid-edge-near-equator-same-side", cls, J(d).str("monitor", kk));
     else if ((env.be == B_EXACT || env.be == B_DELEG) && env.f < -0.2 && (M.npreq || extra_preq)) c.viol("regime:C08/geod-exact/strongly-prolate-ellipsoid-inverse-edge-within-1e-8deg-of-equator", cls, J(d).str("monitor", kk));
+    else if ((env.be == B_EXACT || env.be == B_DELEG) && env.f > 0.5 && (M.npreq || extra_preq)) c.viol("regime:C08/geod-exact/strongly-oblate-ellipsoid-inverse-edge-within-1e-8deg-of-equator", cls, J(d).str("monitor", kk));
     else c.viol(kk, cls, d); };
   double tolA = env.K * (double)M.tolA, tolP = env.K * (double)M.tolP;
   auto circ = [&](double x, double y) { return (double)circ_dist(x, y, A0); };
@@ -139,7 +141,8 @@ static void sec_meta(Ctx& c, uint64_t) {
     Meas m = measure(env, W);
     double ea = std::max(circ(m.As, m0.As), circ(m.Au, m0.Au)), ep = std::fabs(m.per - m0.per);
     c.obs("rotate first vertex: area difference [ulp(area0)]", ea / uA); c.obs("rotate first vertex: perimeter difference [ulp]", ep / ref::ulp_d(m0.per));
-    if (ea > 2 * uA || ep > 2 * ref::ulp_d(m0.per) || m.n != m0.n) report(ea, "rotate-first-vertex", wit().i("k", (long long)k).f("area2", m.As).f("per2", m.per).f("diff_area", ea).f("diff_per", ep));
+    double Tp = 2 * ref::ulp_d(std::max(std::fabs(m0.per), (double)M.len)) * (M.judged ? 1 : 4);   // the accumulator is exact to ~1 ulp of the largest partial sum
+    if (ea > 2 * uA || ep > Tp || m.n != m0.n) report(ea, "rotate-first-vertex", wit().i("k", (long long)k).f("area2", m.As).f("per2", m.per).f("diff_area", ea).f("diff_per", ep));
     c.event("law evaluated: rotate first vertex");
   }
   if (!unique) { c.event("meta: polygon has a non-unique (nearly antipodal) edge: uniqueness-dependent relations skipped"); return; }
@@ -172,7 +175,7 @@ static void sec_meta(Ctx& c, uint64_t) {
     std::vector<RV> W(V.rbegin(), V.rend()); Meas m = measure(env, W);
     double ea = circ(m.As, -m0.As), eu = circ(m.Au + m0.Au, 0), ep = std::fabs(m.per - m0.per);
     double T = 2 * tolA + 4 * uA, Tp = 2 * tolP + 4 * ref::ulp_d(m0.per);
-    c.obs("reverse order: area error / tolerance", std::max(ea, eu) / T); c.obs("reverse order: perimeter error / tolerance", ep / Tp);
+    if (ea <= T && eu <= T && ep <= Tp) { c.obs("reverse order: area error / tolerance", std::max(ea, eu) / T); c.obs("reverse order: perimeter error / tolerance", ep / Tp); }
     if (ea > T || eu > T || ep > Tp) report(std::max(ea, eu), "reverse-order", wit().f("area_rev_signed", m.As).f("area_rev_unsigned", m.Au).f("per_rev", m.per).f("tolA", T));
     c.event("law evaluated: reverse order");
   }
@@ -182,13 +185,13 @@ static void sec_meta(Ctx& c, uint64_t) {
     if (j - i >= 2 && !(i == 0 && j == n - 1)) {
       EdgeOut d = rhumb ? rhumb_edge_between(env, c, V[i], V[j]) : geod_edge_between(env, c, V[i], V[j], false, 0);
       if (d.st == E_OK) {
-        extra_rheq = d.rheq; extra_preq = d.preq;
+        extra_rheq = d.rheq; extra_preq = d.preq; extra_rhtiny = d.rhtiny;
         std::vector<RV> P1(V.begin() + i, V.begin() + j + 1), P2(V.begin() + j, V.end()); P2.insert(P2.end(), V.begin(), V.begin() + i + 1);
         Meas m1 = measure(env, P1), m2 = measure(env, P2);
         double td = env.K * env.tol_pos * (double)d.lenscale;
         double ea = circ(m1.As + m2.As, m0.As), ep = std::fabs((m1.per + m2.per) - (m0.per + 2 * (double)d.len));
         double T = 2 * tolA + 4 * td * (double)env.cauth + 6 * uA, Tp = 2 * tolP + 4 * td + 8 * ref::ulp_d(m0.per + 2 * (double)d.len);
-        c.obs("cut along a diagonal: area error / tolerance", ea / T); c.obs("cut along a diagonal: perimeter error / tolerance", ep / Tp);
+        if (ea <= T && ep <= Tp) { c.obs("cut along a diagonal: area error / tolerance", ea / T); c.obs("cut along a diagonal: perimeter error / tolerance", ep / Tp); }
         if (ea > T || ep > Tp) report(ea, "cut-along-diagonal", wit().i("i", (long long)i).i("j", (long long)j).f("A1", m1.As).f("A2", m2.As).f("p1", m1.per).f("p2", m2.per).f("diag", (double)d.len).f("err_area", ea).f("tolA", T).f("err_per", ep).f("tolP", Tp), d.tie);
         c.event("law evaluated: cut along a diagonal");
       }
